@@ -199,6 +199,8 @@ def triage(ctx, v):
             continue
         if f.f.get("site") and f.f["site"] not in (v.get("sites") or []):
             continue
+        if f.f.get("detail") and f.f["detail"] != v.get("detail"):
+            continue
         if f.f.get("class") and f.f["class"] != v.get("cls"):
             continue
         if f.f.get("input") and f.f["input"] != v.get("input"):
@@ -221,6 +223,10 @@ def finish(ctx, level, coverage, assumptions=(), vacuous=None):
         print("KNOWN-FINDING: property=%s %s  [re-found %d time(s) in this run]" % (ctx.id, text.replace("property=%s " % ctx.id, ""), len(vs)))
     rc = 0
     rdir = os.path.join(VERIF, "replays", ctx.id)
+    if os.path.isdir(rdir) and not getattr(ctx, "replay", None):
+        for fn in os.listdir(rdir):
+            if fn.startswith(ctx.tier + "_"):
+                os.remove(os.path.join(rdir, fn))
     if fresh:
         os.makedirs(rdir, exist_ok=True)
         seen = {}
